@@ -246,6 +246,21 @@ pub fn batch_check(prop: &str, agg: &crate::core::Agg) -> Vec<crate::core::Viola
             }
         }
         "C18" => {
+            // the documented rate holds per configuration: one clause per lg_k, then the pooled one
+            for lg in 4..=26u32 {
+                let n = agg.probes.get(&format!("cpc_sketches_lgk{lg}")).copied().unwrap_or(0) as f64;
+                let x = agg.probes.get(&format!("cpc_sketches_over_lgk{lg}")).copied().unwrap_or(0) as f64;
+                if n > 0.0 {
+                    let v = n * 0.001;
+                    let t = l / 3.0 + (l * l / 9.0 + 2.0 * v * l).sqrt();
+                    if x > v + t {
+                        out.push(crate::core::Violation::new(
+                            "C18.cpc_max_serialized_bytes_rate",
+                            format!("lg_k {lg}: {x} of {n} CPC sketches produced an image above max_serialized_bytes({lg}) at some power-of-two prefix; the documented 0.1% allows {v:.2} + margin {t:.1}"),
+                        ));
+                    }
+                }
+            }
             let n = agg.probes.get("cpc_sketches").copied().unwrap_or(0) as f64;
             let x = agg.probes.get("cpc_sketches_with_an_image_over_max_serialized_bytes").copied().unwrap_or(0) as f64;
             if n > 0.0 {
